@@ -208,8 +208,10 @@ Why(e, g, o) ==
     [] e.t = "narr" -> IF g.t = "null" \/ (g.t = "arr" /\ g.v = <<>>) THEN <<>> ELSE <<"kind", "narr", g.t>>
     [] e.t = "arr" -> IF g.t # "arr" THEN <<"kind", "arr", g.t>>
                       ELSE IF Len(g.v) # Len(e.v) THEN <<"arr-len">>
-                      ELSE LET bad == {i \in 1..Len(e.v) : Why(e.v[i], g.v[i], o) # <<>>} IN
-                           IF bad = {} THEN <<>> ELSE Why(e.v[Min(bad)], g.v[Min(bad)], o)
+                      \* (per-child results computed once: calling Why twice per level would be exponential in depth)
+                      ELSE LET rs == [i \in 1..Len(e.v) |-> Why(e.v[i], g.v[i], o)]
+                               bad == {i \in 1..Len(e.v) : rs[i] # <<>>}
+                           IN IF bad = {} THEN <<>> ELSE rs[Min(bad)]
     [] e.t = "obj" ->
          IF g.t # "obj" THEN <<"kind", "obj", g.t>> ELSE
          LET n == Len(e.k)
@@ -224,8 +226,9 @@ Why(e, g, o) ==
                  THEN <<"obj-missing-member", e.v[Min({i \in 1..n : Status(e.v[i], o) = "keep" /\ \A j \in 1..m : i \notin src[j]})].t>>
             \* with Sort the members appear in ascending order of the input keys (the input lists them ascending)
             ELSE IF o.sort /\ \E j \in 1..(m - 1) : \E i1 \in src[j], i2 \in src[j + 1] : i1 >= i2 THEN <<"obj-order">>
-            ELSE LET bad == {j \in 1..m : \A i \in src[j] : Why(e.v[i], g.v[j], o) # <<>>} IN
-                 IF bad = {} THEN <<>> ELSE Why(e.v[Min(src[Min(bad)])], g.v[Min(bad)], o)
+            ELSE LET rs == [j \in 1..m |-> Why(e.v[Min(src[j])], g.v[j], o)]
+                     bad == {j \in 1..m : rs[j] # <<>>}
+                 IN IF bad = {} THEN <<>> ELSE rs[Min(bad)]
     [] OTHER -> <<"bad-input-node">>
 
 \* bytewise order of keys (sort.Strings); the input tree must list its keys strictly ascending
